@@ -170,7 +170,7 @@ def content(spec):
 def header_values(spec):
     rng = np.random.default_rng([int(spec['seed']), 7])
     iproj = int(spec.get('iproj', 2))
-    return {
+    h = {
         'name': spec.get('name', 'AVERAGE'),
         'note': spec.get('note', 'pncmon reference file'),
         'itzon': int(spec.get('itzon', 0)),
@@ -184,6 +184,11 @@ def header_values(spec):
         'iproj': iproj, 'istag': int(spec.get('istag', 0)),
         'tlat1': float(np.float32(33.0)), 'tlat2': float(np.float32(45.0)),
     }
+    # a caller may fix the grid (IOAPI-style receivers read through uamiv)
+    for k in ('xorg', 'yorg', 'delx', 'dely'):
+        if k in spec:
+            h[k] = float(np.float32(spec[k]))
+    return h
 
 
 def cloud_hdr(spec):
